@@ -223,7 +223,7 @@ func calleeKeys(r *FuncResult) []string {
 var invOblRe = regexp.MustCompile(`#F\.inv\[loop(\d+),(\d+)\]\.(entry|preserved)`)
 
 // dropAuxiliary: loop invariants, loop assumptions and hints are proof AIDS, not claims. When one of them no longer
-// binds (a local it mentions is gone) or is no longer established by a restructured loop, the function is verified
+// binds (a local it mentions is gone), or binds only after rename recovery and then fails, the function is verified
 // again WITHOUT those clauses (the engine-derived iteration summaries still apply). If every obligation of that
 // second attempt is discharged, the function is proved - by a proof that does not use the clauses - and the second
 // attempt replaces the first; the dropped clauses are listed in the notes. Otherwise the first attempt stands and
@@ -257,7 +257,10 @@ func dropAuxiliary(rr *runResult, smtDir string, timeoutSec, seed int) {
 			}
 			switch cl.Kind {
 			case "invariant":
-				if failing[fmt.Sprintf("%d,%d", cl.Loop, cl.Ord)] {
+				// an invariant that still binds AS WRITTEN and fails is reported (it may carry a claim that no
+				// postcondition repeats); one that had to be re-stated over a guessed successor of a vanished
+				// variable is a proof aid of code that no longer exists in that form
+				if failing[fmt.Sprintf("%d,%d", cl.Loop, cl.Ord)] && cl.Renamed {
 					off = append(off, cl)
 					continue
 				}
@@ -802,7 +805,7 @@ func thoroughExtras(repo, prop string, seed int, extra map[string]any) int {
 // generated on a changed tree: internal obligations (loop invariants, per-site safety obligations, frame obligations
 // per touched field, closure preconditions, vacuity covers) legitimately come and go when code is restructured, and
 // their disappearance alone is not evidence against the property.
-var topLevelRe = regexp.MustCompile(`#(F\.ensures\[\d+\]|F\.onpanic\[|F\.yields2?\[|F\.assert|F\.panics-allowed|R\.functional|R\.noglobals|R\.noglobalstate)`)
+var topLevelRe = regexp.MustCompile(`#(F\.ensures\[\d+\]|F\.onpanic\[|F\.yields2?\[|F\.assert|F\.cbinv\[|F\.panics-allowed|R\.functional|R\.noglobals|R\.noglobalstate)`)
 
 func isTopLevelClaim(name string) bool { return topLevelRe.MatchString(name) }
 
